@@ -96,7 +96,7 @@ def rekey(r):
                     return "C01:page-loop-livelock:" + "+".join(sorted(ks))
             return "C01:page-loop-livelock:" + "+".join(sorted(bs))
         return k
-    if k.startswith("timeout:") and isinstance(d, dict) and d.get("nodes") and not k.startswith("timeout:recursion:") and not nested_footnotes(d):
+    if k.startswith("timeout:") and isinstance(d, dict) and d.get("nodes") and not nested_footnotes(d):
         # a slow or endless computation has no stable running function: it is named by the features of its document
         fs = features(d)
         for ks in KNOWN_HANGS:
@@ -281,8 +281,10 @@ def run(ctx):
                 if '"key":"timeout' in line:
                     r = json.loads(line)
                     if r.get("kind") == "disagree" and r["key"].startswith("timeout"):
-                        tmo_lines.append(json.dumps(r["detail"]))
-                        continue
+                        kf = ctx.findings.get(rekey(r))
+                        if not (kf and kf.get("status") == "known"):   # (a listed hang needs no confirmation)
+                            tmo_lines.append(json.dumps(r["detail"]))
+                            continue
                 kept.append(line)
         slow = 0
         if tmo_lines:
